@@ -24,6 +24,7 @@ THEOREMS = [
     "C04_history",
     "C04_collect_partial", "C04_collect_fuel_adequate", "C04_exec_eq_spec_partial",
     "C04_collect_full_acyclic", "C04_exec_eq_spec_full_acyclic", "C04_exec_terminates",
+    "C04_collect_failure_is_local",
 ]
 AXIOMS_OK = []
 RUN_MODULE = "Run.C04run Exec.ExecModel"
